@@ -25,6 +25,7 @@ CASE_TIMEOUT = 900
 VALUES = [1.0, 2.0, 0.0, 0.5, -1.0, -3.0, 100.0]
 WEIGHTS = [1.0, 2.0, 0.5, 0.0, 10.0]
 SHIFTS = [5.0, -0.25]
+LEVEL_SHIFTS = [4000.0]  # biweight location judged on data at the level of read depths
 BIG_SHIFTS = [1.0e5]  # scale estimators only: a mean far larger than the spread (conditioning of one-pass formulas)
 CONST_VALUES = [0.1, 3.3, -0.7]  # constants that are not short binary fractions (rounding inside a weighted mean)
 SCALES = [2.0, 0.5]
@@ -75,6 +76,7 @@ def describe(tier):
             "weights": WEIGHTS,
             "shifts": SHIFTS,
             "big_shifts_scale_estimators_only": BIG_SHIFTS,
+            "level_shifts_biweight_location": LEVEL_SHIFTS,
             "constant_vectors": CONST_VALUES,
             "scales": SCALES,
             "signal_values": SIGNAL_VALUES,
@@ -403,6 +405,15 @@ def eval_estimators(ctx, vec, full, sub, ref=None):
                     ctx.violation(f"{name} is zero for constant data", f"{name}/zero-for-constant/{feat}", expected=0.0, observed=g, sub=s2)
             elif not close(g, base[name], TOL):
                 ctx.violation(f"{name} is unchanged by adding a constant", f"{name}/shift/{feat}", expected=base[name], observed=g, sub=s2)
+    # locations at a level far from zero (read depths rather than log2 ratios): judged against the published iteration on
+    # the moved data itself, so a tolerance that grows with the level of the data shows
+    if not m["const"] and len(data) == len(vec):
+        for s in LEVEL_SHIFTS:
+            moved = [x + s for x in data]
+            mm = model_of(moved)
+            g = value(ctx, "biweight_location", ctx.call(D.biweight_location, arr(moved)), feat, {**sub, "fn": "biweight_location", "shift": s})
+            if g is not None:
+                check_location_value(ctx, "biweight_location", g, mm, feat + "/level-%g" % s, {**sub, "fn": "biweight_location", "shift": s})
     for k in SCALES:
         scaled = [x * k for x in vec]
         for name in SCALES_PLAIN:
